@@ -414,6 +414,8 @@ func (p *prop) genEnf(rng *core.Rand) string {
 		t := "1"
 		if rng.Chance(1, 8) {
 			t = "0"
+		} else if rng.Chance(1, 8) {
+			t = "2"
 		}
 		rs = append(rs, fmt.Sprintf("%s/%s/%s", t, core.Hex(sni), core.Hex(host)))
 	}
@@ -528,7 +530,7 @@ var malformed = []string{
 	"pol 0 -/~/~ /0/6/0000000000000000", "pol 0 -/~/~ 2d/0/6/0000000000000000;", "pol 0 -/~/~; 2d/0/6/0000000000000000",
 	"pol 0 -/,/~ 2d/0/6/0000000000000000", "pol 0 -/61,/~ 2d/0/6/0000000000000000", "pol 0 -/6/~ 2d/0/6/0000000000000000",
 	"pol 0 -/~/~ c3a8/0/6/0000000000000000", "pol 0 -/~/~ 2d/0/6/0000000000000000 extra",
-	"enf n . . 1/2d/2d", "enf x . . 1/2d/2d", "enf n . . 2/2d/2d", "enf n . . 1/2d", "enf n . . 1//2d", "enf n . 41 1/2d/2d",
+	"enf n . . 1/2d/2d", "enf x . . 1/2d/2d", "enf n . . 3/2d/2d", "enf n . . 1/2d", "enf n . . 1//2d", "enf n . 41 1/2d/2d",
 	"enf n . 61,61 1/2d/2d", "enf n . , 1/2d/2d", "enf n . 2d 1/2d/2d", "enf n . . 1/c3a8/2d", "enf n . . 1/2d/c3a8", "enf n . .",
 	"enf t -/~/~ 61 1/61/61 x", "enf n . . 1/2d/2d;", "enf n -/~ . 1/2d/2d",
 }
@@ -561,11 +563,21 @@ func (p *prop) normalize(line string) string {
 			f = append(f, x)
 		}
 	}
+	// a mutated enf line that still parses: the IDNA forms its policy names carry are re-observed
+	if len(f) == 5 && f[0] == "enf" {
+		if pols, ok := parsePolicies(f[2]); ok && len(pols) > 0 {
+			f[2] = fmtPolicies(pols)
+			return strings.Join(f, " ")
+		}
+		return line
+	}
 	if len(f) != 4 || f[0] != "pol" || (f[1] != "0" && f[1] != "1") {
 		return line
 	}
-	if _, ok := parsePolicies(f[2]); !ok {
+	if pols, ok := parsePolicies(f[2]); !ok {
 		return line
+	} else if len(pols) > 0 {
+		f[2] = fmtPolicies(pols)
 	}
 	hs, ok := parseHellos(f[3])
 	if !ok {
